@@ -74,6 +74,24 @@ pub fn span_tiny() -> impl Strategy<Value = Span> {
     (fr(-14.5, -8.0), any::<bool>()).prop_map(|(e, back)| mk_span(0.0, 10f64.powf(e), back))
 }
 
+/// spans far from the origin (epoch seconds and beyond): |x0| = 10^U[5,12], length from 8 to 1e5 ulps of x0.
+/// Every absolute constant of the crate (1e-12 slack, 1e-6 default steps) is far below the spacing of the time axis here,
+/// and every "x * uround" guard is near its limit.  The length is bounded because no solver takes steps below about
+/// 10 ulps of x, so a run has at most 1e4 steps -- whereas on a long interval the rounding of t makes a time-dependent
+/// right-hand side noisy and a tight tolerance legitimately unaffordable.  (Not for RK4 below 640 000 ulps.)
+pub fn span_offset() -> impl Strategy<Value = Span> {
+    (fr(5.0, 12.0), any::<bool>(), fr(0.9, 5.0), any::<bool>()).prop_map(|(e, neg, le, back)| {
+        let x0 = if neg { -(10f64.powf(e)) } else { 10f64.powf(e) };
+        let len = ulp(x0.abs()) * 10f64.powf(le);
+        Span { x0, xend: if back { x0 - len } else { x0 + len } }
+    })
+}
+
+/// whether a fixed-step RK4 with span/100 (or finer) steps can advance on this span
+pub fn rk4_can_step(sp: &Span) -> bool {
+    sp.len() >= 640_000.0 * ulp(sp.x0.abs().max(sp.xend.abs()))
+}
+
 /// ordinary spans
 pub fn span_mid() -> impl Strategy<Value = Span> {
     (prop_oneof![Just(0.0), fr(-100.0, 100.0)], fr(0.1, 20.0), any::<bool>()).prop_map(|(x0, len, back)| mk_span(x0, len, back))
